@@ -272,3 +272,25 @@ Proof.
 Qed.
 
 End HxTwin.
+
+(* two Hexitals - different other members, different programs - that give B the same candles and
+   the same calculate() calls leave B with the same candles and readings *)
+Theorem member_agrees_across_hexitals (NO : NumOps) (B : ind NO)
+  (Hleaf : i_subs NO B = [] /\ i_managed NO B = []) (Htop : i_sub NO B = false)
+  (Hk : leaf_kind NO (i_kind NO B) = true) (Hnodot : has_dot (i_name NO B) = false)
+  (others1 others2 : list (bool * string)) (key1 key2 : string) (cfg hcfg1 hcfg2 : mcfg)
+  (ops1 ops2 : list (hop NO)) (h1 h1' h2 h2' : hexital NO) (twin : store NO) :
+  foreign NO B others1 -> foreign NO B others2 ->
+  Inv NO B others1 key1 cfg h1 twin -> Inv NO B others2 key2 cfg h2 twin ->
+  Forall (op_allowed NO B others1 key1) ops1 -> Forall (op_allowed NO B others2 key2) ops2 ->
+  foldM (hx_step NO hcfg1) ops1 h1 = Ok h1' -> foldM (hx_step NO hcfg2) ops2 h2 = Ok h2' ->
+  foldM (twin_step NO B cfg) ops1 twin = foldM (twin_step NO B cfg) ops2 twin ->
+  exists s1 s2, alist_get key1 (h_mgrs NO h1') = Some (cfg, s1) /\ alist_get key2 (h_mgrs NO h2') = Some (cfg, s2) /\
+    map (fun c => (t c, cur NO (p c), alist_get (i_name NO B) (inds NO (p c)))) s1 =
+    map (fun c => (t c, cur NO (p c), alist_get (i_name NO B) (inds NO (p c)))) s2.
+Proof.
+  intros Hf1 Hf2 HI1 HI2 Ho1 Ho2 H1 H2 Et.
+  destruct (member_equals_twin NO B Hleaf Htop Hk Hnodot others1 Hf1 key1 cfg hcfg1 ops1 h1 h1' twin HI1 Ho1 H1) as (s1 & t1 & G1 & E1 & M1).
+  destruct (member_equals_twin NO B Hleaf Htop Hk Hnodot others2 Hf2 key2 cfg hcfg2 ops2 h2 h2' twin HI2 Ho2 H2) as (s2 & t2 & G2 & E2 & M2).
+  exists s1, s2. split; [exact G1|]. split; [exact G2|]. rewrite Et, E2 in E1. inversion E1; subst. congruence.
+Qed.
